@@ -22,6 +22,15 @@ def run_demo(pdir, wt, meta):
         cmds = [c for c in (meta.get("demo_build"), meta.get("demo_run")) if c]
     else:
         cmds = [c for c in (meta.get("demo_build"), meta.get("demo_run")) if c]
+    def clean(c):
+        c = c.strip()
+        if c.startswith("$ "):
+            c = c[2:]
+        c = re.sub(r"\s+\((?:exit|prints|expect|with|no |should|returns|OK|the )[^)]*\)\s*$", "", c)
+        c = re.sub(r"\s{2,}\(.*$", "", c)
+        c = re.sub(r"\s+#.*$", "", c)
+        return c
+    cmds = [clean(c) for c in cmds if not c.strip().startswith('(')]
     out_all, rc = "", 0
     for c in cmds:
         rc, out = sh(c, cwd=pdir, timeout=900)
